@@ -178,10 +178,14 @@ def build(ctx):
                                 desc="message %s.%s: message_traits/group_traits size_bytes(counts..., total_data) == reference formula for all argument values" % (sch.ns, msg.name),
                                 bounds={"args": "full range of each numInGroup type, total_data any; true size < 2^62", "std": "c++" + std}))
             if ctx.quick and msg.name in c02.QUICK_SKIP: continue
-            u = ctx.lower("c05_%s_%s" % (sch.ns, msg.name), g.cpp_prelude() + g.cpp_geom(mutators=False, sizes=True) + cpp_traits(g), std=std, mode=mode, incs=[inc])
+            u = ctx.lower("c05_%s_%s" % (sch.ns, msg.name), g.cpp_prelude() + g.cpp_getset(setters=False) + g.cpp_geom(mutators=False, sizes=True) + cpp_traits(g), std=std, mode=mode, incs=[inc])
             N = g.max_size(0, D) + 1
             arms = []
             for lv in g.levels: arms += c03.size_arms(g, lv)
+            # size_bytes of every composite and fixed-length array view (at root and inside entries) == the encoded size the schema defines
+            for lv in g.levels:
+                arrs = {lf.name for lf in lv.leaves if lf.kind == "array" and not lf.const}
+                arms += [a for a in c02.leaf_arms(g, lv, sch) if a[0].startswith("comp_") or a[0] in arrs]
             arms += consistency_arms(g)
             dynamic = bool(msg.groups or msg.data)
             groups = [[a] for a in arms] if dynamic else [arms]
